@@ -20,8 +20,8 @@ ASSUMPTIONS = ['errors are non-negative (C08 DS-SIGN)', 'scipy chi2.sf is '
 
 
 def check(ctx):
-    stats.check_chi2(ctx)
-    dataset.check_quad(ctx, kinds=('sub',))
+    ctx.run(stats.check_chi2)
+    ctx.run(dataset.check_quad, kinds=('sub',))
 
 
 def variants(program):
